@@ -599,6 +599,26 @@ with_conform(PROPS["C11"], "Exclusive")
 with_conform(PROPS["C15"], "Notifier")
 with_conform(PROPS["C18"], "Retry")
 with_conform(PROPS["C20"], "Attempt")
+# the hook points the T3/T4 harness relies on
+with_conform(PROPS["C01"], "HooksBuffer")
+with_conform(PROPS["C02"], "HooksBuffer")
+with_conform(PROPS["C03"], "HooksBuffer")
+with_conform(PROPS["C04"], "HooksBuffer")
+with_conform(PROPS["C05"], "HooksBuffer")
+with_conform(PROPS["C12"], "HooksBuffer")
+with_conform(PROPS["C05"], "HooksWaitCond")
+with_conform(PROPS["C12"], "HooksWaitCond")
+with_conform(PROPS["C13"], "HooksChannel")
+with_conform(PROPS["C12"], "HooksChannel")
+with_conform(PROPS["C06"], "HooksPubSub")
+with_conform(PROPS["C07"], "HooksPubSub")
+with_conform(PROPS["C08"], "HooksPubSub")
+with_conform(PROPS["C09"], "HooksExclusive")
+with_conform(PROPS["C10"], "HooksExclusive")
+with_conform(PROPS["C17"], "HooksWorker")
+with_conform(PROPS["C14"], "HooksWorkers")
+with_conform(PROPS["C20"], "HooksAttempt")
+with_conform(PROPS["C15"], "HooksNotifier")
 with_conform(PROPS["C17"], "Worker")
 with_conform(PROPS["C08"], "Caster")
 with_conform(PROPS["C06"], "PubSub", "Caster")
